@@ -615,7 +615,7 @@ def explore_gateway(job: dict) -> dict:
         obs = gwrig.run(dict(h, probe=False, ops=[]))
         esc = [le for le in obs["loop_exceptions"] if le["entry"].startswith(RECEIVE_PATH_ENTRIES)]
         col.case(nt=jdump(h["frames"]) if h.get("mutations") else None,
-                 classes=["gateway", "gateway:mutated" if h.get("mutations") else "gateway:verbatim", "gateway:array-pair" if "array-pair" in h.get("mutations", []) else "gateway:no-array-pair"],
+                 classes=["gateway", "gateway:over-midnight" if h.get("date_jumps") else "gateway:one-day", "gateway:mutated" if h.get("mutations") else "gateway:verbatim", "gateway:array-pair" if "array-pair" in h.get("mutations", []) else "gateway:no-array-pair"],
                  sample={"system": h.get("system"), "n": len(h["frames"]), "mutations": h.get("mutations"), "head": h["frames"][:3]})
         for le in obs["loop_exceptions"]:
             if le not in esc:
@@ -624,7 +624,17 @@ def explore_gateway(job: dict) -> dict:
             col.violation({"clause": "exception-escapes", "exc": le["exc"], "site": le["site"], "via": "gateway"}, {"history": h},
                           f"{le['message']}: {le['exc']}: {le['text']} (entered at {le['entry']})")
 
-    hyp_explore(history(max_len=60), body, job["n"], job["seed"])
+    from hypothesis import strategies as st
+
+    @st.composite
+    def hist_over_days(draw: Any) -> dict:
+        h = draw(history(max_len=60))
+        if draw(st.booleans()):  # one or two nights pass somewhere in the history (the receive path keeps per-day state, e.g. its warnings)
+            n = len(h["frames"])
+            h["date_jumps"] = {str(draw(st.integers(0, max(0, n - 1)))): draw(st.sampled_from((43_200.0, 86_400.0, 50_000.0))) for _ in range(draw(st.integers(1, 2)))}
+        return h
+
+    hyp_explore(hist_over_days(), body, job["n"], job["seed"])
     return col.dump()
 
 
